@@ -11,15 +11,71 @@ COMMON_NOTE = ("Trusted: Coq 8.16.1 kernel; no axioms (Print Assumptions output 
                "both quoting backends built from the working tree; extracted theorem predicates applied to the "
                "implementation's outputs.")
 
+TECH = "Coq proof over a hand-written Gallina model + extracted-model differential correspondence + extracted theorem predicates on the implementation's outputs"
+
 CHECKS = {
+    "C01": {
+        "text": ("Proved (unbounded, both backends, all strings incl. lone surrogates and malformed escapes): every quoter output is ASCII, "
+                 "every '%' starts an upper-case escape and every literal belongs to the RFC 3986 alphabet of its component "
+                 "(C01_quoter_output, policy table by complete sweep of the regenerated tables). The URL-level lifting (every entry "
+                 "point writes each component through the right quoter) is NOT proved: it is validated by running the same extracted "
+                 "predicate on the implementation's observations of 14k+ constructor/build/modifier/join programs per run. Known "
+                 "findings F17 F20 F22 F26 are excluded by extracted classifiers."),
+        "design_ref": "DESIGN.md section 7 C01",
+    },
+    "C03": {
+        "text": ("Proved: requoting is idempotent for the four requoters (all strings), dot-segment removal is idempotent. The URL-level "
+                 "fixed point str(URL(str(u))) = str(u) with identical components is NOT proved (partial): it is checked on the "
+                 "implementation by re-parsing the string form of every generated URL (two-stage programs), known findings F14 F15 F17 excluded."),
+        "design_ref": "DESIGN.md section 7 C03",
+    },
+    "C04": {
+        "text": ("Proved: canonical component text is returned unchanged by the component's requoter in either backend (all texts); every "
+                 "requoter output is canonical; the literal (128 x 8) and decode (256 x 9) tables are exactly RFC 3986's by complete sweeps. "
+                 "URL-level str(URL(s)) == s is NOT proved (partial): validated on canonical URLs generated through the extracted canon "
+                 "predicate; known findings F14 (http:/p) and F27 (http://h?q) excluded."),
+        "design_ref": "DESIGN.md section 7 C04",
+    },
+    "C05": {
+        "text": ("Proved: the model of the compiled quoter equals the model of the pure-Python quoter on every surrogate-free string for "
+                 "every admissible configuration; soundness of the changed flag; the shift-and-mask UTF-8 writer; the Writer delivers its "
+                 "input for every buffer size (growth boundaries cannot matter). Unquoter equality is correspondence-only. Lone-surrogate "
+                 "look-ahead residue (F1b) is a refuted witness. The tie to both real backends is a three-way differential run incl. "
+                 "outputs crossing k*8192."),
+        "design_ref": "DESIGN.md section 7 C05",
+    },
+    "C07": {
+        "text": ("Proved: split_url is the RFC 3986 Appendix B decomposition of the cleaned input whenever it succeeds, fails only with "
+                 "ValueError, the cleaning step and scheme alphabet are the specified ones, encoded=True stores the parts verbatim. The "
+                 "authority split and the recomposition clause are checked by extracted predicates on the implementation (exhaustive "
+                 "delimiter strings), not proved."),
+        "design_ref": "DESIGN.md section 7 C07",
+    },
+    "C10": {
+        "text": ("Proved on the model: == is the equality of the normalised 5-tuple (an equivalence), the ordering is a total preorder with "
+                 "trichotomy, <= is < or ==. 'Never equal to a non-URL' is type-dispatch glue probed on the implementation only."),
+        "design_ref": "DESIGN.md section 7 C10",
+    },
     "C15": {
-        "text": ("Unbounded theorems: the model of normalize_path equals RFC 3986 5.2.4 remove_dot_segments "
-                 "(transcribed independently, string level) on every rooted path, leaves no dot segment and is "
-                 "idempotent. The tie to the Python source is a differential run (exhaustive segment sequences "
-                 "plus random) of model, pure and compiled implementation, and the extracted theorem predicate "
-                 "evaluated on the implementation's outputs."),
+        "text": ("Unbounded theorems: the model of normalize_path equals RFC 3986 5.2.4 remove_dot_segments (transcribed independently, "
+                 "string level) on every rooted path, leaves no dot segment and is idempotent. The tie to the Python source is a "
+                 "differential run (exhaustive segment sequences plus random) of model, pure and compiled implementation, and the "
+                 "extracted theorem predicate evaluated on the implementation's outputs."),
         "design_ref": "DESIGN.md section 7 C15",
-        "technique": "Coq proof over a Gallina model + extracted-model differential correspondence",
+    },
+    "C17": {
+        "text": ("Proved on the model for all authorities/schemes/ports: parsed ports lie in 0..65535 else ValueError, the default table is the "
+                 "stated one, port falls back only when absent, 0 is not absent, is_default_port and str() elide exactly the default, "
+                 "with_port rejects bools and out-of-range values. Exhaustive scheme x port x host x route matrix on the implementation."),
+        "design_ref": "DESIGN.md section 7 C17",
+    },
+    "C19": {
+        "text": ("Proved on the model: every constructor, modifier, accessor and operation sequence returns or fails with ValueError/TypeError "
+                 "(all inputs, all oracle answers); the Writer under an arbitrary allocator returns all-or-MemoryError and stays in bounds. "
+                 "'str() of a returned object never fails' is refuted by a kernel-evaluated witness (known finding F17) and otherwise "
+                 "validated by correspondence only (partial). Real allocator behaviour is exercised by fault injection "
+                 "(_testcapi.set_nomemory), not proved."),
+        "design_ref": "DESIGN.md section 7 C19",
     },
 }
 
@@ -42,7 +98,7 @@ def main():
                 "engine": "coq+extracted-model",
                 "level_claimed": {"category": "proof", "text": c["text"], "design_ref": c["design_ref"]},
                 "level_note": c.get("note", COMMON_NOTE),
-                "technique": c["technique"],
+                "technique": c.get("technique", TECH),
             })
         else:
             na.append({"property_id": p, "reason": NOT_YET.get(
